@@ -972,6 +972,7 @@ c_status_t MMUnflattenMessage(MMessage * msg, const void * inBuf, uint32 inputBu
             {
                MByteBuffer ** bufs;
                numItems = B_LENDIAN_TO_HOST_INT32(numItems);
+               if (numItems > ((eLength-sizeof(uint32))/sizeof(uint32))) return CB_ERROR;  /* each item needs at least its 4-byte length-prefix, so this count can't be right (and we don't want to allocate a huge array for it) */
                bufs = PutMMVariableFieldAux(msg, MFalse, tc, fieldName, numItems);
                if (bufs)
                {
